@@ -19,8 +19,10 @@
 (*                         handler, A SetProtocol(id) + AddProtocols(id).  *)
 (*   Use    = first write+read round trip on a lazy stream: the header and *)
 (*            the chosen id reach B NOW, so B's findHandler sees the table *)
-(*            of this moment; "na" makes A's read fail.  On an established *)
-(*            stream: another round trip.                                  *)
+(*            of this moment; "na" makes A's read fail - and B goes on     *)
+(*            negotiating on the application bytes that follow (parameter  *)
+(*            q of Use, known finding NoStray).  On an established stream: *)
+(*            another round trip.                                          *)
 (*   Close  = Close of the stream; on a never-used lazy stream it flushes  *)
 (*            the handshake first, so B's handler may run (and see EOF).   *)
 (*   Add / Remove = SetStreamHandler, SetStreamHandlerMatch /              *)
